@@ -49,7 +49,7 @@ def judge(plan: dict, tr: P.Trace):
                 continue  # empty plaintext: the ciphertext is only the tag, still must differ, but keep the rule simple
             prev = seen[what].get(v)
             if prev is not None:
-                same_args = tr.ops[prev].op.get("sid") == ot.op.get("sid")
+                same_args = next((o.op.get("sid") for o in tr.ops if o.idx == prev), None) == ot.op.get("sid")
                 return common.violation("C19", "reuse", ot.op["fl"], what, "", mode,
                                         f"{what} of protect op {ot.idx} equals that of op {prev} ({v.hex()[:24]}...); same args={same_args}; "
                                         f"concurrent={ot.op.get('group') is not None}; literal-provenance={prov}"), probes
@@ -138,11 +138,22 @@ def gen_plan(rng, i: int, tier: str) -> dict:
             else:
                 ops.append({"op": "protect", "fl": rng.choice(("sync", "async")), "sid": rng.choice(SIDS), "rk": rng.choice((0, None)),
                             "net": "online", "data": rng.choice((0, 5, 16)), "same_data": rng.random() < 0.7})
+    if kind in ("mixed", "identical-offline") and plan["seed"] % 5 == 1:
+        # a value that is protected again: the plaintext of the last protect is the blob an earlier protect (same SID) returned
+        prot = [j for j, o in enumerate(ops) if o["op"] == "protect"]
+        if prot:
+            j = rng.choice(prot) if False else prot[plan["seed"] % len(prot)]
+            ops.append(dict(ops[j], fl=rng.choice(("sync", "async")), group=None, data_from_op=j))
+            ops.append(dict(ops[j], fl="sync", group=None, data_from_op=len(ops) - 1))
+            plan["reprotect"] = True
+    if plan["seed"] % 7 == 2:
+        # the entropy device misbehaves for whoever opens it as a file (EOF in a chroot, short reads); os.urandom is unaffected
+        plan["entropy_device"] = {"mode": ("eof", "short")[(plan["seed"] // 7) % 2], "max": (1, 5, 11)[(plan["seed"] // 14) % 3]}
     if kind in ("concurrent", "identical-offline", "identical-online-seed") and plan["seed"] % 3 == 0:
         # the same protects made by caller threads of one process (sync API, shared cache): simworld.threads decides every pre-emption
         r = random.Random(plan["seed"])
         for o in ops:
-            if o["op"] == "protect":
+            if o["op"] == "protect" and o.get("data_from_op") is None:
                 o["fl"], o["group"] = "thread", 1
         plan["threads"] = {"mode": "prob", "p": r.choice((0.005, 0.05, 0.3))} if r.random() < 0.5 else {"mode": "points", "n": r.choice((1, 2, 4)), "horizon": r.choice((300, 3000, 20000))}
         if r.random() < 0.3:
@@ -160,13 +171,14 @@ class C19(common.Check):
             "process through the sync API (pre-empted at PRNG-chosen line events inside dpapi_ng), and histories in which the process forks "
             "after a protect and parent and child both go on protecting, and histories whose key position alternates (clock stepping between two "
             "intervals and back, two root keys used in turn), histories in which the application re-seeds Python's global PRNG with the same value "
-            "before every call, public-key replies whose PublicKeyLength field is 0 / 8 / 2^32-1 (the child's entropy source is re-keyed, buffered state is shared). From each emitted blob the "
+            "before every call, public-key replies whose PublicKeyLength field is 0 / 8 / 2^32-1, histories in which the blob an earlier protect returned is protected again, "
+            "histories under a /dev/urandom that returns EOF or short reads to whoever opens it as a file (the child's entropy source is re-keyed, buffered state is shared). From each emitted blob the "
             "reference extracts GCM nonce and key_info and recovers the CEK; all must be pairwise distinct within the history. "
             "Non-trivial = history with >= 2 successful protects; distinct = distinct plan.")
     components = {"client": "real (public API, KeyCache, _encrypt_blob, cek_generate, new_kek)", "entropy": "simulated (os.urandom and AESGCM.generate_key seams, ledger)",
                   "clock": "simulated, frozen", "DC": "model (RefDC)", "security context": "stub (StubCtx)", "blob opener": "model (ref.cms/ref.gkdi)"}
     assumptions = ["the simulated entropy source never repeats a draw; real-world collision probability of fresh 96/256-bit values is outside the claim"]
-    required_fired = ("mode_pub", "mode_nonce", "provenance_ok", "forked_histories", "alternating_positions", "thread_histories", "thread_overlap", "app_reseed_histories", "odd_length_field_histories")
+    required_fired = ("mode_pub", "mode_nonce", "provenance_ok", "forked_histories", "alternating_positions", "thread_histories", "thread_overlap", "app_reseed_histories", "odd_length_field_histories", "reprotect_histories", "entropy_device_fault_histories")
 
     def cases(self, tier, seed):
         rng = prng.stream(seed, "C19")
@@ -210,6 +222,10 @@ class C19(common.Check):
             probes["forked_histories"] = 1
         if case.get("kind") == "alternating":
             probes["alternating_positions"] = 1
+        if case.get("reprotect"):
+            probes["reprotect_histories"] = 1
+        if case.get("entropy_device"):
+            probes["entropy_device_fault_histories"] = 1
         if case.get("kind") == "app-reseed":
             probes["app_reseed_histories"] = 1
         if case.get("kind") == "pub-reply-odd-length-field":
